@@ -4,7 +4,7 @@ PROP = {
     "level": "exploration",
     "level_text": "Channel-level part of C07 (the end-to-end file / OTLP parts are decided by other lanes). Seeded exploration of the real emit_batcher channel with a flush-focused mix: 1-3 concurrent flushers using when_flushed callbacks, sync::blocking_flush, tokio flush and tokio blocking_flush with timeouts from 0 to 20 ms, a slow / failing / retrying / panicking scripted processor, overflow truncation, and flush requests aimed through the H-B hook at the racy windows (receiver about to swap, between swap-out and on_batch, before a retry wait, before the watchers are notified, before an idle wait); sequential histories inject the flush at those scheduling points deterministically. Oracle over the merged stamp log: for a flush requested at c and completed at d, every item whose send returned before c was truncated before d, or all its on_batch attempts returned before d and none starts after d. Callback completion stamps are exact; blocking / async completion stamps are taken after the call returned true, which can hide but never invent a violation. Held-on-what-was-observed over the interleavings actually produced (counted in the evidence), plus Miri's scheduler and TSan.",
     "level_note": "Trusts the checker in harness/mon/src/shared/chan.rs and vcommon::stamp(). Scenarios that drop the receiver early are excluded from the oracle (the statement says 'while the receiver is alive'). Blocking / async flushes that time out make no claim and are not judged.",
-    "technique": "runtime monitoring: flush-vs-attempts rule over call/return stamps of seeded channel scenarios with hook-aimed flush requests; Miri and ThreadSanitizer lanes run the same monitor",
+    "technique": "runtime monitoring: flush-vs-attempts rule over call/return stamps of seeded channel scenarios with hook-aimed flush requests; Miri and ThreadSanitizer lanes run the same monitor; valgrind memcheck build of the file end-to-end lane (thorough)",
     "assumptions": [
         "quiescence step: a callback flush requested right after the last sender operation (nothing else touching the channel, no processor call failing) must have completed by the time the receiver has begun 3 further idle waits (counted at the RecvBeforeIdleWait scheduling point); a watchdog expiry is inconclusive",
         "an item counts as 'sent before the flush' only if its send returned (return stamp) before the flush was requested (stamp taken before the call)",
@@ -17,6 +17,7 @@ PROP = {
         # all three receiver flavours: tokio was quiet under TSan (-Zbuild-std) in this sandbox
         san("tsan", "c07", scale=10),
         native("c07x", pkg="monx", name="files-e2e"),
+        memcheck("c07x", name="memcheck-files-e2e", scale=3, timeout={"thorough": 3600}),
         script("strace", "c10-strace", tiers=T, args={"prop": "C07"}),
         native("c07o", pkg="monx", name="otlp-e2e", args={"prop": "C07"}),
     ],
